@@ -27,9 +27,7 @@ theorem register_reject_atomic (st : State) (r : State.RegReq) (e : Err)
     imports, singletons, the interactive flag are untouched). -/
 theorem register_changes_registry_only (st st' : State) (r : State.RegReq)
     (h : st.register r = .ok st') : st' = { st with registry := st'.registry } := by
-  unfold State.register at h
-  repeat (split at h; · cases h)
-  cases h; rfl
+  rw [(State.register_ok h).2]
 
 /-- A different object under an already registered complete name is rejected outside interactive
     mode … -/
@@ -40,7 +38,7 @@ theorem reregister_rejected (st : State) (r : State.RegReq) (e : Entry)
     step st (.register r) = (st, .err .valueError) := by
   have hc : st.clashes r = true := by
     simp [State.clashes, hreg, hi, hobj]
-  simp [step, State.register, hl, hn, hm, hc]
+  simp [step, State.register, State.regCheck, hl, hn, hm, hc]
 
 /-- … and is not rejected for that reason inside interactive mode. -/
 theorem reregister_interactive_no_clash (st : State) (r : State.RegReq)
@@ -63,9 +61,7 @@ theorem interactive_only_flag (st : State) (on : Bool) :
 theorem registered_resolves (st st' : State) (r : State.RegReq) (h : st.register r = .ok st') :
     ∃ reg : SelMap Entry, st'.registry = reg.set r.cfgable.selector
       { cfg := r.cfgable, objId := r.objId, isClass := r.isClass } := by
-  unfold State.register at h
-  repeat (split at h; · cases h)
-  cases h
+  rw [(State.register_ok h).2]
   exact ⟨_, rfl⟩
 
 /-! ### decision table: what a registry call of a registered class constructs -/
